@@ -39,6 +39,13 @@ static int lwe(const string &f) {
         }
         double ev = (f == "lweClear" || f == "lweNoiselessTrivial") ? 0. : (f == "lweCopy" || f == "lweNegate") ? sv : (f == "lweAddTo" || f == "lweSubTo") ? rv + sv : rv + (double)p * (double)p * sv;
         if ((p > -32768 && p < 32768) && r->current_variance != ev) FAIL("%s: n=%d p=%d variance got %g expected %g", f.c_str(), n, p, r->current_variance, ev);
+        if (f == "lweNegate" || f == "lweCopy") {      /* in-place use: result and sample are the same object */
+            for (int i = 0; i < n; i++) r->a[i] = r0[i]; r->b = rb; r->current_variance = rv;
+            if (f == "lweNegate") lweNegate(r, r, par); else lweCopy(r, r, par);
+            for (int i = 0; i <= n; i++) { uint32_t o = U(i < n ? r0[i] : rb), got = U(i < n ? r->a[i] : r->b), e = f == "lweNegate" ? 0u - o : o;
+                if (got != e) FAIL("%s in place (result == sample): n=%d coordinate %d: got %u expected %u", f.c_str(), n, i, got, e); }
+            if (r->current_variance != rv) FAIL("%s in place: variance not preserved", f.c_str());
+        }
         delete_LweSample(r); delete_LweSample(s); delete_LweParams(par);
     }
     return 0;
